@@ -495,6 +495,11 @@ def expr_calls(expr, out=None):
     return out
 
 
+import re as _re0
+_PTR_IDENT = _re0.compile(r"^core::ptr::(mut_ptr|const_ptr)::<impl \*(mut|const) T>::(cast|cast_mut|cast_const)$|"
+                          r"^core::ptr::NonNull::<T>::(as_ptr|new_unchecked|cast)$")
+
+
 def strip_refs(expr):
     """Peel reference / reborrow / pointer-cast / identity wrappers to get at the underlying place/value."""
     IDENT = (
@@ -519,6 +524,8 @@ def strip_refs(expr):
         elif expr[0] == "cast" and expr[1].startswith(("PtrToPtr", "Transmute", "PointerCoercion")):
             expr = expr[2]
         elif expr[0] == "call" and expr[1] in IDENT and expr[2]:
+            expr = expr[2][0]
+        elif expr[0] == "call" and expr[2] and expr[1] and _PTR_IDENT.search(expr[1]):
             expr = expr[2][0]
         elif expr[0] == "proj" and expr[2] and expr[2][0] in (".pointer", ".__pointer"):
             # Pin { pointer } field access
